@@ -453,6 +453,7 @@ def record(cfg, strategy, max_steps=None, hook=None):
     trace = dict(cfg=dict(n=cfg['n'], workers=cfg['workers'], edges=[list(e) for e in cfg['edges']],
                           outcome=[MODEL_OUTCOME.get(cfg['outcome'].get(str(i), 'ok'), cfg['outcome'].get(str(i), 'ok'))
                                    for i in range(1, cfg['n'] + 1)],
+                          outcome_real=[cfg['outcome'].get(str(i), 'ok') for i in range(1, cfg['n'] + 1)],
                           init=[(cfg.get('init') or {}).get(str(i), 'ABSENT') for i in range(1, cfg['n'] + 1)],
                           order=order, calls=cfg.get('calls', 1), nested=cfg.get('nested') or {}, prior=cfg.get('prior') or {}),
                  events=events, verdict=ex.ctl.verdict, raised=repr(ex.raised) if ex.raised is not None else '',
